@@ -2,6 +2,8 @@ import Fosite.Driver.Wire
 import Fosite.Model.Scope
 import Fosite.Spec.Scope
 import Fosite.Driver.PureAudience
+import Fosite.Driver.PureHMAC
+import Fosite.Driver.PureRedirect
 namespace Fosite.Driver
 open Fosite
 
@@ -12,6 +14,8 @@ def pureModel (fs : List String) : Option String :=
   | ["scope", "hierarchic", hay, needle] => some (boolStr (Model.hierarchicScope ((decList hay).map chars) (chars needle)))
   | ["scope", "exact", hay, needle] => some (boolStr (Model.exactScope ((decList hay).map chars) (chars needle)))
   | "audience" :: _ => pureModelAudience fs
+  | "hmac" :: _ => pureModelHMAC fs
+  | "redirect" :: _ => pureModelRedirect fs
   | _ => none
 
 /-- spec side: the documented meaning, used as the monitor oracle on implementation outputs -/
@@ -21,6 +25,8 @@ def pureSpec (fs : List String) : Option String :=
   | ["scope", "hierarchic", hay, needle] => some (boolStr (Spec.hierarchic ((decList hay).map chars) (chars needle)))
   | ["scope", "exact", hay, needle] => some (boolStr (Spec.exact ((decList hay).map chars) (chars needle)))
   | "audience" :: _ => pureSpecAudience fs
+  | "hmac" :: _ => pureSpecHMAC fs
+  | "redirect" :: _ => pureSpecRedirect fs
   | _ => none
 
 end Fosite.Driver
